@@ -267,6 +267,11 @@ func (ft *funcTrans) run() (err error) {
 			w.addFact(t.S)
 		}
 	}
+	if ft.c != nil {
+		o := ft.obligation("cover", "requires-sat", "preconditions and type invariants are satisfiable", "true")
+		o.Cover = true
+		w.facts = w.facts[:len(w.facts)-1]
+	}
 	ft.findLoops()
 	order := ft.rpo()
 	for _, b := range order {
